@@ -14,6 +14,12 @@ Proof. reflexivity. Qed.
 Lemma pkey_header_widths : view_id_width = 2%nat /\ view_ws_width = 8%nat.
 Proof. split; reflexivity. Qed.
 
+(* the long-key part of the correspondence check declares trailing columns with MaxLen 1024 and
+   with the builder's maximum: both are legal lengths, and the default length alone can never make
+   pKey ++ cCols reach 512 bytes of trailing value (long keys need the explicit constraint) *)
+Lemma trailing_column_limits : view_default_field_len < 512 /\ 1024 <= view_max_field_len.
+Proof. split; vm_compute; [reflexivity|discriminate]. Qed.
+
 (* ---- key encoding ---- *)
 
 (* Loading stored clustering columns gives back the values they were built from: for every
